@@ -73,12 +73,14 @@ const whyWidth = "two squares scaled by 2^40 realise the operand widths: a wrapp
 func init() {
 	register(&propDef{
 		id: "C13",
-		explanation: "Decides the 'no intermediate exceeds 64 bits' clause of C13: with every coordinate bounded by 2^61 (MaxCoord) a magnitude-bits abstract interpretation of all int64 +,-,* in the package (interprocedural parameter/return widths) shows no result can need more than 63 bits (width), and no integer is taken through float64 and back when it may exceed 53 bits (roundtrip). Products are formed by the 128-bit helpers, whose limb arithmetic is trusted. Does NOT decide the growth of float rounding error (the '2 units + 2^-40 extent' bound itself).",
+		explanation: "Decides the 'no intermediate exceeds 64 bits' clause of C13 and a translation clause (the orientation, collinearity, slope, normal and distance primitives read coordinates only through same-axis differences, so they are exactly translation invariant): with every coordinate bounded by 2^61 (MaxCoord) a magnitude-bits abstract interpretation of all int64 +,-,* in the package (interprocedural parameter/return widths) shows no result can need more than 63 bits (width), and no integer is taken through float64 and back when it may exceed 53 bits (roundtrip). Products are formed by the 128-bit helpers, whose limb arithmetic is trusted. Does NOT decide the growth of float rounding error (the '2 units + 2^-40 extent' bound itself).",
 		notDecided: []string{"float rounding error growth in getDx/topX/getClosestPtOnSegment/offset constructors", "correctness of the 128-bit limb arithmetic (mulInt64, int128.add/sub/toFloat64, multiplyUInt64): bit-vector identities", "translation invariance of float expressions"},
 		assumptions: []string{"a float the library converts to int64 has coordinate-difference magnitude (w+1 bits)", "`int` quantities (indices, counts, winding numbers) stay below 2^31"},
 		rules: []func(*Ctx){
 			ruleWidth("C13.width", 61, nil, 40, whyWidth),
 			ruleRoundTrip("C13.roundtrip", 61),
+			ruleOnlyDifferences("C13.translate", []string{"CrossProduct", "dotProduct64", "isCollinear", "getDx", "getUnitNormal", "PerpendicDistFromLineSqr64"}, 4,
+				"translating every input by the same vector must translate the result: a predicate that reads a coordinate other than through a same-axis difference gives different answers (and different rounding) far from the origin"),
 		},
 	})
 }
@@ -105,7 +107,7 @@ func init() {
 		id: "C02",
 		explanation: "Decides structural clauses of C02: (emit) every closed path reaches a solution only through cleanCollinear -> buildPath(pts, c.reverseSolution, false, &path) -> append guarded by buildPath()==true, in the flat and in the tree pipeline alike; (buildPath) buildPath refuses rings of fewer than 3 nodes before writing and never appends a point equal to the last appended one; (reverse) every buildPath call site passes the engine's reverseSolution option, and the offsetter derives it as ReverseSolution != pathsReversed. Does NOT decide winding 0/1 of the whole solution, hole orientation or idempotence of re-union.",
 		notDecided: []string{"winding number 0/1 of the solution (geometry of the sweep)", "orientation of outer boundaries vs holes (addLocalMinPoly side choice)", "idempotence of re-uniting a solution"},
-		rules:      []func(*Ctx){ruleEmit("C02"), ruleBuildPath("C02.buildPath")},
+		rules:      []func(*Ctx){ruleEmit("C02"), ruleBuildPath("C02.buildPath"), ruleCleanCollinear("C02.clean")},
 	})
 	register(&propDef{
 		id: "C04",
